@@ -163,7 +163,7 @@ def check_group_ops(rep: Report, rid: str, prog: Program, resolver: Resolver, ta
                         if not ok:
                             break
                         continue
-                    ok, why = same_group_value(subst_value(got, subs), subst_value(want, subs), component)
+                    ok, why = same_group_value(subst_value(got, subs), subst_value(want, subs), component, o.trivial)
                     if not ok:
                         break
                 n_checked += 1
@@ -173,7 +173,30 @@ def check_group_ops(rep: Report, rid: str, prog: Program, resolver: Resolver, ta
             raise AnalysisError(f"{qual}: no return value could be compared with its specification")
 
 
-def same_group_value(got: AV, want: AV, component: Optional[str]) -> Tuple[bool, str]:
+def mono_equal_mod(a: Any, b: Any, kind: str, trivial: Any) -> bool:
+    """a == b, or they differ by a group element the path condition states to be trivial
+    (an `if not factors:` arm: the factor map - and with it its dimension image - is empty)."""
+    if a == b:
+        return True
+    from .poly import mono_mul, mono_pow
+    inv = mono_pow(b, Lin(-1))
+    if inv is None:
+        return False
+    q = mono_mul(a, inv)
+    for k, t in trivial or []:
+        cands = [t]
+        if k == "F" and kind == "D":
+            cands = [tuple(sorted((("D:" + x[2:] if x.startswith("F:") else x, e) for x, e in t), key=lambda z: z[0]))]
+        elif k != kind:
+            continue
+        for c in cands:
+            ci = mono_pow(c, Lin(-1))
+            if q == c or (ci is not None and q == ci):
+                return True
+    return False
+
+
+def same_group_value(got: AV, want: AV, component: Optional[str], trivial: Any = None) -> Tuple[bool, str]:
     if isinstance(want, UnitV):
         if not isinstance(got, UnitV):
             return False, f"result is {type(got).__name__}, not a unit"
@@ -181,13 +204,13 @@ def same_group_value(got: AV, want: AV, component: Optional[str]) -> Tuple[bool,
         for name, (g, w) in comps.items():
             if component and name != component:
                 continue
-            if g.mono != w.mono:
+            if not mono_equal_mod(g.mono, w.mono, name.upper(), trivial):
                 return False, f"{ {'p': 'prefix', 'f': 'factor', 'd': 'dimension'}[name] } component is {g.mono}, expected {w.mono}"
         return True, ""
     if isinstance(want, GroupV):
         if not isinstance(got, GroupV):
             return False, f"result is {type(got).__name__}"
-        return got.mono == want.mono, f"{got.mono} vs {want.mono}"
+        return mono_equal_mod(got.mono, want.mono, want.kind, trivial), f"{got.mono} vs {want.mono}"
     return False, "uncomparable"
 
 
